@@ -29,7 +29,7 @@ func (s *State) evalUnquoteCalls(quoted ast.Node) ast.Node {
 			log.Warnf("wrong number of arguments to unquote: %d", len(call.Parameters))
 			return node
 		}
-		unquoted := s.evalInternal(call.Parameters[0])
+		unquoted := object.Value(s.evalInternal(call.Parameters[0])) // its value: not the register / reference holding it.
 		res := convertObjectToASTNode(unquoted)
 		if res == nil { // would make a quote with a nil node which crashes when printed or evaluated.
 			return s.MacroErrorf("unquote: unsupported %s", unquoted.Type())
